@@ -35,7 +35,15 @@ pub enum Verdict {
 }
 
 #[inline]
-fn step(state: Option<u64>, op: Op) -> Option<Option<u64>> {
+fn step(state: Option<u64>, op: Op, evicting: bool) -> Option<Option<u64>> {
+    if evicting {
+        // a cache may drop an entry at any moment: observing absence is always admissible and
+        // leaves the register empty; everything else is the plain register
+        match op {
+            Op::Get(None) | Op::Exists(false) => return Some(None),
+            _ => {}
+        }
+    }
     match op {
         Op::Put(v) => Some(Some(v)),
         Op::Get(r) => {
@@ -67,6 +75,11 @@ fn step(state: Option<u64>, op: Op) -> Option<Option<u64>> {
 
 /// `initial` is the register's value before the history starts.
 pub fn check(events: &[Event], initial: Option<u64>, max_steps: u64) -> Verdict {
+    check_model(events, initial, max_steps, false)
+}
+
+/// `evicting = true`: register that may spontaneously lose its value (cache semantics).
+pub fn check_model(events: &[Event], initial: Option<u64>, max_steps: u64, evicting: bool) -> Verdict {
     let n = events.len();
     if n == 0 {
         return Verdict::Linearizable;
@@ -106,7 +119,7 @@ pub fn check(events: &[Event], initial: Option<u64>, max_steps: u64) -> Verdict 
             if e.inv > min_res {
                 continue;
             }
-            if let Some(ns) = step(state, e.op) {
+            if let Some(ns) = step(state, e.op, evicting) {
                 let nd = done | (1u128 << i);
                 if memo.insert((nd, ns)) {
                     stack.push((nd, ns));
